@@ -2,7 +2,7 @@
 (* Family "genmap": one plugin run per shape: the 15 scalar types x {singular, repeated, map, oneof branch}, naming variants, and every session shape.  Serves C01 C02. *)
 EXTENDS GenShapes, TLC, Json
 CONSTANTS MCDeep, MCLong
-VARIABLES sh, M, obj, tf, dg, pn, pc, hist, viol, aux
+VARIABLES sh, M, Mi, obj, tf, dg, pn, pc, hist, viol, aux
 MCShapes == GenMapShapes
 MCProps == {"C01", "C02"}
 ASSUME PrintT("SHAPES " \o ToJson(MCShapes))
